@@ -105,7 +105,8 @@ def drive(tier):
         extra["pairs_compared"] += len(keys) - 1
     for key, canons in by_key.items():
         if len(canons) > 1:
-            hh = [h for h in keys if keys[h][1] == key][:2]
+            grp = [h for h in keys if keys[h][1] == key]
+            hh = [grp[0]] + [h for h in grp if keys[h][0] != keys[grp[0]][0]][:1]  # two members whose content differs
             extra["violations"].append({"kind": "collision", "histories": hh, "what": f"models with different content share the key {key}: {hh}",
                                         "class": "key-collision"})
     by_canon = {}
